@@ -214,7 +214,12 @@ def run_seq(res, mb, bc, sizes, pre_active='', pre_backs=None, time_format=None,
                 res.obs['close_reopen'] += 1
             data = payload(k, n, newline, uni)
             before_active = os.path.getsize(path) if os.path.exists(path) else 0
-            st({'data': data, 'pid': 4242})
+            try:
+                st({'data': data, 'pid': 4242})
+            except Exception as e:      # noqa
+                res.violation('C20/write-raised:%s' % type(e).__name__, 'writing %d characters to %r raised %r (%s)'
+                              % (len(data), os.path.basename(path), e, ctx))
+                break
             res.obs['writes'] += 1
             if time_format is None:
                 hist += data
